@@ -593,30 +593,10 @@ fn main() {
         let mrt = kvget(m, "rt").unwrap_or("");
         let mdiff = kvget(m, "diff").unwrap_or("-");
         let mflags2 = kvget(m, "flags2").map(|s| if s == "-" && mrt != "ok" { None } else { Some(unhx_list(s)) }).flatten();
-        // (a) flags vs model
-        if canon_flags(flags1) != canon_flags(&mflags) {
-            corr.push(format!("{{\"class\":\"command_line_flags vs commandLineFlags\",\"case\":{},\"implementation\":{},\"model\":{}}}", desc(),
-                json_str(&flags1.join(" ␟ ")), json_str(&mflags.join(" ␟ "))));
-            continue;
-        }
-        let c2 = r.c2.as_ref().unwrap();
-        // (b) parse outcome vs model of clap
-        let impl_rt = if c2.flags.is_some() { "ok" } else if c2.rc == 2 { "err" } else { "other" };
-        let model_rt = if mrt == "ok" { "ok" } else { "err" };
-        if impl_rt != model_rt {
-            corr.push(format!("{{\"class\":\"builder_from_flags outcome vs fromFlags (clap model)\",\"case\":{},\"flags\":{},\"implementation\":{},\"model\":{}}}", desc(),
-                json_str(&flags1.join(" ␟ ")), json_str(&format!("{impl_rt} rc={} {}", c2.rc, c2.stderr.lines().filter(|l| l.starts_with("error")).next().unwrap_or(""))), json_str(mrt)));
-            continue;
-        }
-        // (c) flags' vs model's prediction
-        if let (Some(f2), Some(mf2)) = (&c2.flags, &mflags2) {
-            if canon_flags(f2) != canon_flags(mf2) {
-                corr.push(format!("{{\"class\":\"second flag list vs model\",\"case\":{},\"implementation\":{},\"model\":{}}}", desc(), json_str(&f2.join(" ␟ ")), json_str(&mf2.join(" ␟ "))));
-                continue;
-            }
-        }
-        // (d) the property's oracle
-        let mut failures: Vec<String> = vec![];
+        // the property's oracle, independent of the model (also the failing-input search when the model is out of step)
+        let oracle_failures = || -> Vec<String> {
+            let mut failures: Vec<String> = vec![];
+            let Some(c2) = r.c2.as_ref() else { return failures };
         match &c2.flags {
             None => failures.push(format!("flags rejected: {}", c2.stderr.lines().filter(|l| l.starts_with("error")).next().unwrap_or("clap error"))),
             Some(f2) => {
@@ -634,6 +614,42 @@ fn main() {
                 }
             }
         }
+            failures
+        };
+        let search = |why: &str, oracle: &mut Vec<String>| {
+            let fl = oracle_failures();
+            if !fl.is_empty() && reg.is_empty() {
+                oracle.push(format!("{{\"class\":\"round trip fails outside every known region (found while the model is out of step: {why})\",\"case\":{},\"flags\":{},\"observed\":{},\"regions\":\"\",\"model_predicts_failure\":false,\"model\":\"-\"}}",
+                    desc(), json_str(&flags1.join(" ␟ ")), json_str(&fl.join("; "))));
+            }
+        };
+        // (a) flags vs model
+        if canon_flags(flags1) != canon_flags(&mflags) {
+            corr.push(format!("{{\"class\":\"command_line_flags vs commandLineFlags\",\"case\":{},\"implementation\":{},\"model\":{}}}", desc(),
+                json_str(&flags1.join(" ␟ ")), json_str(&mflags.join(" ␟ "))));
+            search("flags", &mut oracle);
+            continue;
+        }
+        let c2 = r.c2.as_ref().unwrap();
+        // (b) parse outcome vs model of clap
+        let impl_rt = if c2.flags.is_some() { "ok" } else if c2.rc == 2 { "err" } else { "other" };
+        let model_rt = if mrt == "ok" { "ok" } else { "err" };
+        if impl_rt != model_rt {
+            corr.push(format!("{{\"class\":\"builder_from_flags outcome vs fromFlags (clap model)\",\"case\":{},\"flags\":{},\"implementation\":{},\"model\":{}}}", desc(),
+                json_str(&flags1.join(" ␟ ")), json_str(&format!("{impl_rt} rc={} {}", c2.rc, c2.stderr.lines().filter(|l| l.starts_with("error")).next().unwrap_or(""))), json_str(mrt)));
+            search("parse outcome", &mut oracle);
+            continue;
+        }
+        // (c) flags' vs model's prediction
+        if let (Some(f2), Some(mf2)) = (&c2.flags, &mflags2) {
+            if canon_flags(f2) != canon_flags(mf2) {
+                corr.push(format!("{{\"class\":\"second flag list vs model\",\"case\":{},\"implementation\":{},\"model\":{}}}", desc(), json_str(&f2.join(" ␟ ")), json_str(&mf2.join(" ␟ "))));
+                search("second flag list", &mut oracle);
+                continue;
+            }
+        }
+        // (d) the property's oracle
+        let failures: Vec<String> = oracle_failures();
         let predicted = mrt != "ok" || mdiff != "-" || mflags2.as_ref().map_or(true, |f| canon_flags(f) != canon_flags(&mflags));
         let key = format!("{}|{}|{}", c.class.split(':').next().unwrap(), reg.iter().cloned().collect::<Vec<_>>().join("+"), failures.iter().map(|f| f.split(':').next().unwrap().to_string()).collect::<Vec<_>>().join("+"));
         distinct.insert(format!("{}:{}", c.class, flags1.iter().filter(|f| f.starts_with("--") && f.len() > 2).cloned().collect::<Vec<_>>().join(",")));
